@@ -24,7 +24,9 @@ RULE = ("random discrete Bayesian networks with 1..6 variables, cardinalities 1.
         "by number characters, probability headers ending in *variable, isolated Markov nodes, tables > 1000 entries); "
         "every case is written and read through the reader/writer classes (XMLBIF, UAI, NET always, BIF on 40% of the "
         "cases because constructing a BIFReader costs 2 s) and through save/load on a temp file, BIF with n_jobs 1 "
-        "or 2; Markov networks (UAI) with random factor scopes and values.  Compared: nodes, edges, state names as "
+        "or 2; Markov networks (UAI) with random factor scopes and unnormalised potentials from 5e-324 to 1.8e308 "
+        "(values >= 1e16, printed as <mantissa>e+NN, as the last number of the file, elsewhere, or absent), compared "
+        "exactly; all kinds of cases are mixed in one shuffled order so a budget cut drops no kind as a block.  Compared: nodes, edges, state names as "
         "strings, the value of EVERY named assignment (exact float equality for BIF/XMLBIF/UAI, numpy round(4) for "
         "NET), parent order and flat table against the model's read-back, and the written text (variable order, "
         "parent order, number list) against the model's abstract document.  Any exception of a reader or writer on "
@@ -165,23 +167,34 @@ def _prod(it):
     return r
 
 
-def gen_mn(rng, isolated=False):
+# unnormalised potentials over the whole float range, in both directions; str(numpy.float64) prints every value
+# >= 1e16 as '<mantissa>e+NN' and values < 1e-4 as '<mantissa>e-NN'
+MN_SMALL = [0.0, 1.0, 2.5, 0.1, 7.0, 123456.789, 0.5, 9007199254740992.0, 1e15, 0.0001]
+MN_TINY = [1e-5, 3e-12, 2.5e-7, 1e-100, 2.2250738585072014e-308, 5e-324, 7.3e-300, 1e-300, 4.9e-101]
+MN_HUGE = [1e16, 8.659340042399374e+16, 1.5e22, 1e100, 1e300, 1.7976931348623157e+308, 3.3e+205, 2e+16, 1.2345678901234567e+19]
+
+
+def gen_mn(rng, isolated=False, large="any"):
+    """large: where values >= 1e16 go: 'last' (last entry of the last factor = last number of the file, no other),
+    'last+' (last and elsewhere), 'inner' (elsewhere only), 'none', 'any' (random)"""
     n = rng.randint(2, 6)
     names = rng.sample(KW_NAMES + PLAIN_NAMES, n)
     cards = {v: rng.choice([1, 2, 2, 3, 4, 10, 11]) if rng.random() < 0.3 else rng.choice([2, 3, 4]) for v in names}
     factors = []
     nf = rng.randint(1, 5)
+    pool = MN_SMALL * 2 + MN_TINY + (MN_HUGE if large in ("any", "last+", "inner") else [])
     for _ in range(nf):
         k = rng.randint(2, min(3, n))
         sc = rng.sample(names, k)
         size = _prod(cards[v] for v in sc)
-        vals = [rng.choice([0.0, 1.0, 2.5, 1e-5, 3e-12, 1e16, 0.1, 7.0, 123456.789]) for _ in range(size)]
+        vals = [rng.choice(pool) for _ in range(size)]
         factors.append([sc, vals])
     # single-variable factors on variables that are in some larger factor
     covered = sorted({v for sc, _ in factors for v in sc})
     for v in covered:
         if rng.random() < 0.3:
-            factors.append([[v], [rng.choice([0.5, 2.0, 1e-7, 3.0]) for _ in range(cards[v])]])
+            factors.append([[v], [rng.choice([0.5, 2.0, 1e-7, 3.0] + (MN_HUGE[:3] if large in ("any", "last+", "inner") else []))
+                                  for _ in range(cards[v])]])
     names = covered
     if isolated:
         v = "lonely"
@@ -189,6 +202,16 @@ def gen_mn(rng, isolated=False):
         names = names + [v]
         factors.append([[v], [0.25, 4.0]])
     rng.shuffle(factors)
+    # the writer emits the tables in factor order: the last number of the file is the last entry of the last factor
+    if large in ("last", "last+"):
+        factors[-1][1][-1] = rng.choice(MN_HUGE)
+    elif large == "inner":
+        if factors[-1][1][-1] >= 1e16:
+            factors[-1][1][-1] = rng.choice(MN_SMALL + MN_TINY)
+        if not any(x >= 1e16 for _, vals in factors for x in vals):
+            factors[0][1][0] = rng.choice(MN_HUGE)
+            if len(factors) == 1 and len(factors[0][1]) == 1:
+                factors[0][1][0] = 2.5
     return {"names": names, "cards": {v: cards[v] for v in names}, "factors": factors}
 
 
@@ -236,7 +259,7 @@ def cases(tier, seed):
     # for variables and states together (every one of them is an ordinary round trip now)
     for rep in range(1 if tier == "quick" else 6):
         for names, fc, fp, spi in REGRESSION_STRUCTURES:
-            out.append({"kind": "bn", "bn": gen_bn(rng, len(names), forced=(names, fc, fp, spi)), "njobs": 1,
+            out.append({"kind": "bn", "fixed": True, "bn": gen_bn(rng, len(names), forced=(names, fc, fp, spi)), "njobs": 1,
                         "saveload": rep % 2 == 1, "formats": ["bif", "xmlbif", "uai", "net"]})
     for i in range(6 if tier == "quick" else 40):
         out.append({"kind": "bn", "bn": gen_bn(rng, 4, big=True), "njobs": 1, "saveload": i % 2 == 0,
@@ -246,9 +269,15 @@ def cases(tier, seed):
         for ext in SL_EXTS:
             for ft in SL_FTS:
                 out.append({"kind": "sl", "bn": gen_bn(rng, rng.choice([2, 3, 4])), "ext": ext, "ft": ft})
-    for i in range(60 if tier == "quick" else 800):
-        out.append({"kind": "mn", "mn": gen_mn(rng, isolated=(i % 10 == 9))})
-    return out
+    for i in range(70 if tier == "quick" else 900):
+        out.append({"kind": "mn", "mn": gen_mn(rng, isolated=(i % 10 == 9),
+                                               large=["last", "inner", "last+", "any", "none", "last", "inner"][i % 7])})
+    # when the wall budget runs out the remaining cases are skipped: keep the fixed structures first and mix all
+    # the other kinds (cheap Markov / dispatch cases, 2-second BIF cases) so that no kind is dropped as a block
+    head = [c for c in out if c.get("fixed")]
+    rest = [c for c in out if not c.get("fixed")]
+    rng.shuffle(rest)
+    return head + rest
 
 
 def shrink(case):
@@ -671,6 +700,17 @@ def run_mn(case, drv):
         tags.append("card>=10")
     if any(len(fl) == 1 for fl in flats):
         tags.append("one-value factor")
+    allv = [x for fl in flats for x in fl]
+    if allv and allv[-1] >= 1e16:
+        tags.append("mn value>=1e16 is the last number of the file")
+    if any(x >= 1e16 for x in allv[:-1]):
+        tags.append("mn value>=1e16 not last")
+    if any(x >= 1e100 for x in allv):
+        tags.append("mn value>=1e100")
+    if any(0 < x <= 1e-100 for x in allv):
+        tags.append("mn value<=1e-100")
+    if any(0 < x < 2.3e-308 for x in allv):
+        tags.append("mn denormal value")
     if any(v in KW_EQUAL for v in names):
         tags.append("variable name == keyword")
     text = None
